@@ -19,12 +19,12 @@ MANIFEST = {
     'note': 'On a node whose log is compacted (own compaction or installed snapshot) the fold starts from the fold of the committed membership commands below its log start (skipped only if the ghost table has a hole there); a macro step lets a cut-off leader accept a change, compact and send the snapshot to a laggard before it is deposed; majority monitors use each node\'s own view of the voters; network model of pvf/sim.',
 }
 LEVEL = 'exploration'
-RULE = ('case = (1-5 initial voters of 8 possible, configuration, step list <=220 with addnode/remnode ops through API or admin path). '
+RULE = ('case = (1-5 initial voters of 8 possible, configuration, step list <=220 with addnode/remnode ops through API or admin path, incl. repeated requests whose effect is in place already). '
         'non-trivial = >=2 membership changes were requested while an earlier one was uncommitted, or a leader was elected while a membership change was uncommitted; distinct = distinct case digests')
 ASSUMPTIONS = ['operator discipline: removed node shut down when the removal commits; added node starts empty with the current member list',
                'no node loses its memory; in particular the address of a removed node is reused by a fresh process only after every running node has dropped it from its member set']
 
-EXTRA = [('addnode', 7), ('remnode', 6), ('specsnap', 2)]
+EXTRA = [('addnode', 7), ('remnode', 6), ('specsnap', 2), ('redundant', 3), ('specsnap2', 1)]
 OWN = {'C10': None, 'C01': None, 'C03': None, 'C04': {'commit-index-decreased', 'committed-entry-differs', 'commit-without-majority', 'applied-index-decreased', 'log-matching-broken'}}
 
 
@@ -128,6 +128,31 @@ class DynSim(cluster.Sim):
         target = self.pick(members, b)
         return self._request(req, 'rem', target, c)
 
+    def op_redundant(self, a, b, c):
+        """A membership request whose effect is in place already (a client that repeats a request after a lost reply):
+        add of a node the requester counts as a member, removal of one it does not."""
+        live = self.live()
+        if not live:
+            return False
+        req = self.pick(live, a)
+        members = self.view_members(req)
+        if b % 2 == 0:
+            kind, cand = 'add', sorted(m for m in members if m != req)
+        else:
+            kind, cand = 'rem', [n for n in self.names_all if n not in members]
+        if not cand:
+            return False
+        self.counters['redundant_membership_requests'] += 1
+        return self._request(req, kind, self.pick(cand, b // 2), c)
+
+    def op_specsnap2(self, a, b, c):
+        """specsnap with a redundant request instead of a real change"""
+        self._spec_redundant = True
+        try:
+            return self.op_specsnap(a, b, c)
+        finally:
+            self._spec_redundant = False
+
     def op_specsnap(self, a, b, c):
         """Macro step: a follower is cut off and misses entries; the leader, cut off from everybody, accepts a
         membership change (uncommitted), compacts its log and brings the laggard up to date with a snapshot;
@@ -155,7 +180,9 @@ class DynSim(cluster.Sim):
             return (L, lag, 'leader-lost')
         self.set_partition({L})
         live = self.live()
-        if b % 2 == 0:
+        if getattr(self, '_spec_redundant', False):
+            r = self.op_redundant(live.index(L), b // 2, c // 2)
+        elif b % 2 == 0:
             r = self.op_addnode(live.index(L), b // 2, c // 2)
         else:
             r = self.op_remnode(live.index(L), b // 2, c // 2)
